@@ -1,5 +1,6 @@
 from __future__ import annotations
 
+import sys
 from typing import TYPE_CHECKING, Any, BinaryIO
 
 from dissect.cstruct.types.base import EOF, BaseArray, BaseType
@@ -50,7 +51,8 @@ class Char(bytes, BaseType):
         if count == 0:
             return type.__call__(cls, b"")
 
-        data = stream.read(-1 if count == EOF else count)
+        # (a count no stream can hold, e.g. from a corrupted length field, is a premature end like any other)
+        data = stream.read(-1 if count == EOF else min(count, sys.maxsize))
         if count != EOF and len(data) != count:
             raise EOFError(f"Read {len(data)} bytes, but expected {count}")
 
